@@ -398,5 +398,12 @@ def evaluate_arithmetic(op, lval, rval):
         return error.DIV_ZERO
 
 
+def evaluate_concat(lval, rval):
+    # a blank operand joins as nothing, not as the text 'None'
+    ltext = '' if lval is None else str(lval)
+    rtext = '' if rval is None else str(rval)
+    return ltext + rtext
+
+
 def evaluate_logic(op, lval, rval):
     return OPERATOR_DICT[op](ExcelComparator(lval), rval)
